@@ -67,6 +67,11 @@ def parseGrid (t : List String) : Except Err GridSpec :=
       (natOf (trisA.getD (3 * t) "0"), natOf (trisA.getD (3 * t + 1) "0"), natOf (trisA.getD (3 * t + 2) "0")))
     let m := Fs.Mesh.edgeMap tris
     let SO := ScalarOps.float
+    -- `set_neighbors` runs before the status is set: a node with more neighbours than the mesh
+    -- type allows is refused first (constant and check regenerated from trimesh.hpp)
+    if Fs.Gen.meshChecksDegree && (List.range np).any (fun i => (Fs.MeshGrid.nbrs m i).length > Fs.Gen.meshNmax) then
+      .error .invalidArgument
+    else
     let stRes : Except Fs.MeshGrid.Err (Array Nat) :=
       match rest.drop (2 * np + 3 * nt) with
       | "map" :: _ :: tl => Fs.MeshGrid.statusMap np m (parseOvP tl)
@@ -103,7 +108,7 @@ def GridSpec.area : GridSpec → F
   | .raster g _ => g.dy * g.dx | .profile _ dx _ _ => dx | _ => 0.0
 
 def GridSpec.nmax : GridSpec → Nat
-  | .raster g _ => Fs.Grid.nmax g.conn | .profile .. => 2 | .mesh .. => 20 | _ => 0
+  | .raster g _ => Fs.Grid.nmax g.conn | .profile .. => 2 | .mesh .. => Fs.Gen.meshNmax | _ => 0
 
 def gridCommon (g : GridSpec) : List String :=
   let n := g.size
